@@ -15,6 +15,9 @@ import Rdm.Lemmas.HeurLevelsSpec
 import Mathlib.Tactic.Linarith
 import Mathlib.Tactic.Tauto
 import Mathlib.Tactic.NormNum
+import Rdm.Lemmas.E2EMethods
+import Rdm.Lemmas.E2EMethodsLevels
+import Rdm.Lemmas.E2EMethodsExamples
 set_option linter.unusedSimpArgs false
 namespace Rdm.Props.C14
 open Rdm
@@ -362,6 +365,303 @@ example : ∃ rs, coefSeries .incMul (1/4 : Rat) 1 0 (coefFuel .incMul (1/4 : Ra
     norm_num [Rat.floor_def]
     rfl
   omega
+
+/-! ## end to end: whole requests (`decideWith` / `Rdm.decide`, Model/Decide.lean)
+
+  Whatever biases ran before — every request, every bias list, every stream function, no bounds —, the aspiration
+  levels aspect elimination / satisfaction work with are `aspectLevels` / `satisfactionLevels` of the state that
+  reached `Evaluate` (`resp.final`): found by the REQUEST's levels function among the registered sources,
+  generated with the REQUEST's coefficient / maxValue / minValue, from the criteria ranges of the FINAL state —
+  declared range if present, else observed over ALL known alternatives of the final state (whose values the
+  biases may have rewritten and whose criteria they may have removed or added).
+  Helper lemmas: Rdm/Lemmas/E2EMethods*.lean. -/
+
+/-- **everything the theorems above say about a generated series, for the levels of any state**: if a coefficient
+    source answers on state `d` then the parameters are in the documented ranges, there is one range per
+    criterion of `d`, in order, each the `CriteriaValuesRange` over all known alternatives of `d`; the ratios
+    follow the documented recurrence — strictly increasing in `[minValue, maxValue)` resp. strictly decreasing
+    in `(minValue, maxValue]`, at most `coefFuel` many, with the closed forms of the README —, and level i
+    places every criterion at ratio i of its range (`levelAt`), listing exactly the criteria of `d` -/
+theorem generated_levels_follow_documented_series (k : CoefKind) (d : DMP Rat) (c mx mn : Rat)
+    (lvl : List (KMap Rat)) (h : coefLevels k d c mx mn = .ok lvl) :
+    coefValid k c mx mn = true ∧
+    ∃ ranges rs,
+      criteriaRanges d = .ok ranges ∧ ranges.map (·.1) = d.crit ∧
+      (∀ p ∈ ranges, valuesRange d.all p.1 = .ok p.2) ∧
+      coefSeries k c mx mn (coefFuel k c mx mn) (coefInitial k mx mn) = .ok rs ∧
+      lvl = rs.map (levelAt ranges) ∧
+      (k.inc = true → rs.Pairwise (· < ·) ∧ ∀ r ∈ rs, mn ≤ r ∧ r < mx) ∧
+      (k.inc = false → rs.Pairwise (· > ·) ∧ ∀ r ∈ rs, r ≤ mx ∧ mn < r) ∧
+      rs.length ≤ coefFuel k c mx mn ∧
+      (∀ (i : Nat) (hi : i < rs.length), rs[i] = closedForm k c (coefInitial k mx mn) i) ∧
+      (∀ t ∈ lvl, t.map (·.1) = d.crit.map (·.id)) := by
+  obtain ⟨hv, ranges, rs, hr, hs, hl⟩ := e2em_coefLevels_ok h
+  obtain ⟨hk, hrg⟩ := e2em_criteriaRanges_ok hr
+  exact ⟨hv, ranges, rs, hr, hk, hrg, hs, hl,
+    fun hinc => increasing_series_strictly_monotone k hinc c mx mn hv _ rs hs,
+    fun hdec => decreasing_series_strictly_monotone k hdec c mx mn hv _ rs hs,
+    coefSeries_length_le hs, series_closed_form k c mx mn hv _ rs hs, e2em_coefLevels_keys h⟩
+
+/-- which range a criterion of the state gets: the declared `valuesRange` if present; otherwise minimum and
+    maximum of its values over ALL known alternatives of the state (both attained, every value inside) -/
+theorem range_is_declared_or_observed (d : DMP Rat) (cr : Crit Rat) (rg : Rat × Rat)
+    (h : valuesRange d.all cr = .ok rg) :
+    (∀ dr, cr.range = some dr → rg = dr) ∧
+    (cr.range = none → d.all ≠ [] →
+      ∃ vs, d.all.mapM (·.raw cr) = .ok vs ∧ (∀ v ∈ vs, rg.1 ≤ v ∧ v ≤ rg.2) ∧ rg.1 ∈ vs ∧ rg.2 ∈ vs) := by
+  constructor
+  · intro dr hdr
+    rw [declared_range_preferred d.all cr dr hdr] at h
+    exact (Except.ok.inj h).symm
+  · intro hnone hne
+    exact observed_range_is_min_max d.all cr hnone rg.1 rg.2 hne h
+
+/-- a registered source answering on coefficient parameters: a coefficient source of the registry running its
+    series, or the thresholds source decoding no thresholds (no level at all) -/
+theorem levelsOf_coefficient_parameters (sources : List LevelSource) (fn : String) (c mx mn : Rat) (d : DMP Rat)
+    (lvl : List (KMap Rat)) (h : levelsOf sources fn (.coef c mx mn) d = .ok lvl) :
+    (∃ k, findSource sources fn = .ok (.coef k) ∧ LevelSource.coef k ∈ sources ∧
+        (LevelSource.coef k).name = fn ∧ coefLevels k d c mx mn = .ok lvl) ∨
+    (∃ asc, findSource sources fn = .ok (.thresholds asc) ∧ fn = Facts.levelsThresholds ∧ lvl = []) := by
+  obtain ⟨s, hs, hmem, hname, _, hw⟩ := e2em_levelsOf_ok h
+  rcases e2em_levelsWith_cases_rat hw with ⟨k, c', mx', mn', rfl, hl, hc⟩ | ⟨_, _, _, hl, _⟩ |
+      ⟨asc, _, _, _, rfl, _, rfl⟩
+  · cases hl
+    exact Or.inl ⟨k, hs, hmem, hname, hc⟩
+  · cases hl
+  · exact Or.inr ⟨asc, hs, hname.symm, rfl⟩
+
+/-- **L4, aspect elimination**: for a request with aspect-elimination parameters, if `MakeDecision` answers then
+    the levels the elimination procedure walks through are `aspectLevels resp.final` = `levelsOf` of the sources
+    main.go registers for aspect elimination (all increasing), looked up by the REQUEST's function name, on the
+    FINAL state with the final levels parameters — which are the request's up to the per-criterion entries of
+    explicit thresholds; and the response is `Evaluate` with exactly these levels (any number type) -/
+theorem decideWith_aspect_levels_are_generated_from_final_state {α : Type} [Num α] (exp : α → α)
+    (aspOrder : List (WCrit α) → List (WCrit α)) (req : Request α) (g : Int → Draws α) (resp : Response α)
+    (fn : String) (lv₀ : Levels α) (seed : Int) (w₀ : KMap α) (rnd : Bool)
+    (h : decideWith exp aspOrder req g = .ok resp) (hmp : req.mp = some (.aspect fn lv₀ seed w₀ rnd)) :
+    ∃ lv w lvl s r,
+      resp.final.mp = .aspect fn lv seed w rnd ∧ e2emLvTag lv = e2emLvTag lv₀ ∧
+      aspectLevels resp.final = .ok lvl ∧ levelsOf aspectSources fn lv resp.final = .ok lvl ∧
+      findSource aspectSources fn = .ok s ∧ s.name = fn ∧ s.increasing = true ∧
+      levelsWith s lv resp.final = .ok lvl ∧
+      (∀ t ∈ lvl, ∀ c ∈ resp.final.crit, (t.get? c.id).isSome = true) ∧
+      aspectEvaluateWith resp.final (g seed) (.ok lvl) aspOrder = .ok r ∧
+      resp.result = r.map (Linked.mapEv .asp) := by
+  obtain ⟨lv, w, r, hfin, hl, hr, hres⟩ := e2em_decideWith_aspect h hmp
+  obtain ⟨lvl, hlv, hof, hr'⟩ := e2em_aspect_levels_used hfin hr
+  obtain ⟨s, hs, hmem, hname, _, hw⟩ := e2em_levelsOf_ok hof
+  exact ⟨lv, w, lvl, s, r, hfin, hl, hlv, hof, hs, hname, e2em_aspectSources_increasing hmem, hw,
+    e2em_levelsOf_complete hof, hr', hres⟩
+
+/-- **L4, satisfaction**: likewise with `satisfactionLevels resp.final` and the decreasing sources -/
+theorem decideWith_satisfaction_levels_are_generated_from_final_state {α : Type} [Num α] (exp : α → α)
+    (aspOrder : List (WCrit α) → List (WCrit α)) (req : Request α) (g : Int → Draws α) (resp : Response α)
+    (fn : String) (lv₀ : Levels α) (seed : Int) (cur : String) (rnd : Bool)
+    (h : decideWith exp aspOrder req g = .ok resp) (hmp : req.mp = some (.satisf fn lv₀ seed cur rnd)) :
+    ∃ lv lvl s r,
+      resp.final.mp = .satisf fn lv seed cur rnd ∧ e2emLvTag lv = e2emLvTag lv₀ ∧
+      satisfactionLevels resp.final = .ok lvl ∧ levelsOf satisfactionSources fn lv resp.final = .ok lvl ∧
+      findSource satisfactionSources fn = .ok s ∧ s.name = fn ∧ s.increasing = false ∧
+      levelsWith s lv resp.final = .ok lvl ∧
+      (∀ t ∈ lvl, ∀ c ∈ resp.final.crit, (t.get? c.id).isSome = true) ∧
+      satisfactionEvaluateWith resp.final (g seed) (.ok lvl) = .ok r ∧
+      resp.result = r.map (Linked.mapEv .sat) := by
+  obtain ⟨lv, r, hfin, hl, hr, hres⟩ := e2em_decideWith_satisf h hmp
+  obtain ⟨lvl, hlv, hof, hr'⟩ := e2em_satisf_levels_used hfin hr
+  obtain ⟨s, hs, hmem, hname, _, hw⟩ := e2em_levelsOf_ok hof
+  exact ⟨lv, lvl, s, r, hfin, hl, hlv, hof, hs, hname, e2em_satisfactionSources_decreasing hmem, hw,
+    e2em_levelsOf_complete hof, hr', hres⟩
+
+/-- **L4, generated series for aspect elimination** (over `Rat`): a request with coefficient parameters
+    `(c, mx, mn)`.  The levels in force are generated with exactly these three numbers (no bias touches them) by
+    an INCREASING coefficient source `k` from the criteria ranges of the FINAL state, and all the theorems above
+    apply: documented parameter ranges, one range per final criterion (declared, else observed over all known
+    alternatives of the final state), strictly increasing ratios in `[mn, mx)`, at most `coefFuel` levels, closed
+    forms, threshold formula (`levelAt`).  (Or the function named is `thresholds`, which finds no thresholds in
+    coefficient parameters and hands out no level.) -/
+theorem decideWith_aspect_generated_levels (exp : Rat → Rat) (aspOrder : List (WCrit Rat) → List (WCrit Rat))
+    (req : Request Rat) (g : Int → Draws Rat) (resp : Response Rat)
+    (fn : String) (c mx mn : Rat) (seed : Int) (w₀ : KMap Rat) (rnd : Bool)
+    (h : decideWith exp aspOrder req g = .ok resp)
+    (hmp : req.mp = some (.aspect fn (.coef c mx mn) seed w₀ rnd)) :
+    ∃ w lvl, resp.final.mp = .aspect fn (.coef c mx mn) seed w rnd ∧ aspectLevels resp.final = .ok lvl ∧
+      ((fn = Facts.levelsThresholds ∧ lvl = []) ∨
+       ∃ k, findSource aspectSources fn = .ok (.coef k) ∧ k.inc = true ∧
+         coefLevels k resp.final c mx mn = .ok lvl ∧ coefValid k c mx mn = true ∧
+         ∃ ranges rs,
+           criteriaRanges resp.final = .ok ranges ∧ ranges.map (·.1) = resp.final.crit ∧
+           (∀ p ∈ ranges, valuesRange resp.final.all p.1 = .ok p.2) ∧
+           coefSeries k c mx mn (coefFuel k c mx mn) mn = .ok rs ∧
+           lvl = rs.map (levelAt ranges) ∧
+           rs.Pairwise (· < ·) ∧ (∀ r ∈ rs, mn ≤ r ∧ r < mx) ∧ rs.length ≤ coefFuel k c mx mn ∧
+           (∀ (i : Nat) (hi : i < rs.length), rs[i] = closedForm k c mn i) ∧
+           (∀ t ∈ lvl, t.map (·.1) = resp.final.crit.map (·.id))) := by
+  obtain ⟨lv, w, lvl, s, r, hfin, hl, hlv, hof, _, _, _, _, _, _, _⟩ :=
+    decideWith_aspect_levels_are_generated_from_final_state exp aspOrder req g resp fn _ seed w₀ rnd h hmp
+  obtain ⟨_, _, _, rfl, h0⟩ | ⟨_, _, _, h0, _⟩ := e2em_lvTag_cases hl
+  swap
+  · cases h0
+  cases h0
+  refine ⟨w, lvl, hfin, hlv, ?_⟩
+  rcases levelsOf_coefficient_parameters aspectSources fn c mx mn resp.final lvl hof with
+    ⟨k, hs, hmem, _, hc⟩ | ⟨_, _, hn, hnil⟩
+  · right
+    have hinc : k.inc = true := e2em_aspectSources_increasing hmem
+    obtain ⟨hv, ranges, rs, hr, hk, hrg, hsr, hlvl, hi, _, hlen, hcf, hkeys⟩ :=
+      generated_levels_follow_documented_series k resp.final c mx mn lvl hc
+    have hinit : coefInitial k mx mn = mn := by simp [coefInitial, hinc]
+    rw [hinit] at hsr hcf
+    exact ⟨k, hs, hinc, hc, hv, ranges, rs, hr, hk, hrg, hsr, hlvl, (hi hinc).1, (hi hinc).2, hlen, hcf, hkeys⟩
+  · exact Or.inl ⟨hn, hnil⟩
+
+/-- **L4, generated series for satisfaction** (over `Rat`): likewise with a DECREASING coefficient source,
+    strictly decreasing ratios in `(mn, mx]`, starting at `maxValue` -/
+theorem decideWith_satisfaction_generated_levels (exp : Rat → Rat)
+    (aspOrder : List (WCrit Rat) → List (WCrit Rat)) (req : Request Rat) (g : Int → Draws Rat)
+    (resp : Response Rat) (fn : String) (c mx mn : Rat) (seed : Int) (cur : String) (rnd : Bool)
+    (h : decideWith exp aspOrder req g = .ok resp)
+    (hmp : req.mp = some (.satisf fn (.coef c mx mn) seed cur rnd)) :
+    ∃ lvl, resp.final.mp = .satisf fn (.coef c mx mn) seed cur rnd ∧ satisfactionLevels resp.final = .ok lvl ∧
+      ((fn = Facts.levelsThresholds ∧ lvl = []) ∨
+       ∃ k, findSource satisfactionSources fn = .ok (.coef k) ∧ k.inc = false ∧
+         coefLevels k resp.final c mx mn = .ok lvl ∧ coefValid k c mx mn = true ∧
+         ∃ ranges rs,
+           criteriaRanges resp.final = .ok ranges ∧ ranges.map (·.1) = resp.final.crit ∧
+           (∀ p ∈ ranges, valuesRange resp.final.all p.1 = .ok p.2) ∧
+           coefSeries k c mx mn (coefFuel k c mx mn) mx = .ok rs ∧
+           lvl = rs.map (levelAt ranges) ∧
+           rs.Pairwise (· > ·) ∧ (∀ r ∈ rs, r ≤ mx ∧ mn < r) ∧ rs.length ≤ coefFuel k c mx mn ∧
+           (∀ (i : Nat) (hi : i < rs.length), rs[i] = closedForm k c mx i) ∧
+           (∀ t ∈ lvl, t.map (·.1) = resp.final.crit.map (·.id))) := by
+  obtain ⟨lv, lvl, s, r, hfin, hl, hlv, hof, _, _, _, _, _, _, _⟩ :=
+    decideWith_satisfaction_levels_are_generated_from_final_state exp aspOrder req g resp fn _ seed cur rnd h hmp
+  obtain ⟨_, _, _, rfl, h0⟩ | ⟨_, _, _, h0, _⟩ := e2em_lvTag_cases hl
+  swap
+  · cases h0
+  cases h0
+  refine ⟨lvl, hfin, hlv, ?_⟩
+  rcases levelsOf_coefficient_parameters satisfactionSources fn c mx mn resp.final lvl hof with
+    ⟨k, hs, hmem, _, hc⟩ | ⟨_, _, hn, hnil⟩
+  · right
+    have hdec : k.inc = false := e2em_satisfactionSources_decreasing hmem
+    obtain ⟨hv, ranges, rs, hr, hk, hrg, hsr, hlvl, _, hd, hlen, hcf, hkeys⟩ :=
+      generated_levels_follow_documented_series k resp.final c mx mn lvl hc
+    have hinit : coefInitial k mx mn = mx := by simp [coefInitial, hdec]
+    rw [hinit] at hsr hcf
+    exact ⟨k, hs, hdec, hc, hv, ranges, rs, hr, hk, hrg, hsr, hlvl, (hd hdec).1, (hd hdec).2, hlen, hcf, hkeys⟩
+  · exact Or.inl ⟨hn, hnil⟩
+
+/-- **the checker `Spec.C14.check` accepts the levels in force** (aspect elimination and satisfaction alike): if
+    the levels of the final state come from coefficient source `k`, they pass every clause of the checker
+    against the criteria and ALL known alternatives of the FINAL state — hypotheses of `model_levels_pass_spec`
+    carried through unchanged, on the final state -/
+theorem final_state_levels_pass_spec (resp : Response Rat) (k : CoefKind) (c mx mn : Rat) (lvl : List (KMap Rat))
+    (hc : coefLevels k resp.final c mx mn = .ok lvl) (hnd : (resp.final.crit.map (·.id)).Nodup)
+    (hrg : ∀ cr ∈ resp.final.crit, ∀ rg, valuesRange resp.final.all cr = .ok rg → rg.1 ≤ rg.2) :
+    Spec.C14.check k c mx mn resp.final.crit resp.final.all (some lvl) = true :=
+  model_levels_pass_spec k resp.final c mx mn lvl hc hnd hrg
+
+/-- **L4, explicit thresholds**: with explicit thresholds in the request the levels in force are the final
+    thresholds list, handed out unchanged and as many as the request gave (a bias only removes or adds
+    per-criterion entries), each with a threshold for every criterion of the final state -/
+theorem decideWith_aspect_explicit_levels {α : Type} [Num α] (exp : α → α)
+    (aspOrder : List (WCrit α) → List (WCrit α)) (req : Request α) (g : Int → Draws α) (resp : Response α)
+    (ts₀ : List (KMap α)) (seed : Int) (w₀ : KMap α) (rnd : Bool)
+    (h : decideWith exp aspOrder req g = .ok resp)
+    (hmp : req.mp = some (.aspect Facts.levelsThresholds (.thresholds ts₀) seed w₀ rnd)) :
+    ∃ ts w, resp.final.mp = .aspect Facts.levelsThresholds (.thresholds ts) seed w rnd ∧
+      ts.length = ts₀.length ∧ aspectLevels resp.final = .ok ts ∧
+      ∀ t ∈ ts, ∀ c ∈ resp.final.crit, (t.get? c.id).isSome = true := by
+  obtain ⟨lv, w, lvl, s, r, hfin, hl, hlv, hof, hs, _, _, hw, hcomp, _, _⟩ :=
+    decideWith_aspect_levels_are_generated_from_final_state exp aspOrder req g resp _ _ seed w₀ rnd h hmp
+  obtain ⟨_, _, _, _, h0⟩ | ⟨ts, ts', rfl, h0, hlen⟩ := e2em_lvTag_cases hl
+  · cases h0
+  cases h0
+  have hs' : s = .thresholds true := by
+    have : findSource aspectSources Facts.levelsThresholds = .ok (.thresholds true) := by decide
+    rw [this] at hs
+    exact (Except.ok.inj hs).symm
+  subst hs'
+  simp only [levelsWith] at hw
+  obtain ⟨rfl, _⟩ := e2em_explicitLevels_ok hw
+  exact ⟨lvl, w, hfin, hlen, hlv, hcomp⟩
+
+theorem decideWith_satisfaction_explicit_levels {α : Type} [Num α] (exp : α → α)
+    (aspOrder : List (WCrit α) → List (WCrit α)) (req : Request α) (g : Int → Draws α) (resp : Response α)
+    (ts₀ : List (KMap α)) (seed : Int) (cur : String) (rnd : Bool)
+    (h : decideWith exp aspOrder req g = .ok resp)
+    (hmp : req.mp = some (.satisf Facts.levelsThresholds (.thresholds ts₀) seed cur rnd)) :
+    ∃ ts, resp.final.mp = .satisf Facts.levelsThresholds (.thresholds ts) seed cur rnd ∧
+      ts.length = ts₀.length ∧ satisfactionLevels resp.final = .ok ts ∧
+      ∀ t ∈ ts, ∀ c ∈ resp.final.crit, (t.get? c.id).isSome = true := by
+  obtain ⟨lv, lvl, s, r, hfin, hl, hlv, hof, hs, _, _, hw, hcomp, _, _⟩ :=
+    decideWith_satisfaction_levels_are_generated_from_final_state exp aspOrder req g resp _ _ seed cur rnd h hmp
+  obtain ⟨_, _, _, _, h0⟩ | ⟨ts, ts', rfl, h0, hlen⟩ := e2em_lvTag_cases hl
+  · cases h0
+  cases h0
+  have hs' : s = .thresholds false := by
+    have : findSource satisfactionSources Facts.levelsThresholds = .ok (.thresholds false) := by decide
+    rw [this] at hs
+    exact (Except.ok.inj hs).symm
+  subst hs'
+  simp only [levelsWith] at hw
+  obtain ⟨rfl, _⟩ := e2em_explicitLevels_ok hw
+  exact ⟨lvl, hfin, hlen, hlv, hcomp⟩
+
+/-- the hypotheses are satisfiable, aspect elimination: additive series from 0 towards 1 in steps of 1/4, after a
+    fatigue that rewrote the values of the considered alternatives — four levels, generated by the additive
+    source from the ranges of the FINAL state, and the C14 checker accepts them against the final state -/
+example : ∃ resp lvl, decideWith id List.reverse e2emExAspect (genOf e2eExSeeds) = .ok resp ∧
+    aspectLevels resp.final = .ok lvl ∧ lvl.length = 4 ∧
+    coefLevels .incAdd resp.final (1 / 4) 1 0 = .ok lvl ∧
+    Spec.C14.check .incAdd (1 / 4) 1 0 resp.final.crit resp.final.all (some lvl) = true := by
+  have h := e2em_eq_ok_getD e2emNoResponse (x := decideWith id List.reverse e2emExAspect (genOf e2eExSeeds))
+    (by decide +kernel)
+  generalize hresp : e2emGetD e2emNoResponse (decideWith id List.reverse e2emExAspect (genOf e2eExSeeds)) = resp at h
+  obtain ⟨w, lvl, _, hlv, hcase⟩ := decideWith_aspect_generated_levels id _ _ _ resp "idealAdditiveCoefficient"
+    (1 / 4) 1 0 11 _ false h rfl
+  rcases hcase with ⟨hn, _⟩ | ⟨k, hs, _, hc, _, ranges, rs, _, _, _, _, hl, _, _, _, _, _⟩
+  · exact absurd hn (by decide)
+  have hk : k = .incAdd := by
+    have : findSource aspectSources "idealAdditiveCoefficient" = .ok (.coef .incAdd) := by decide
+    rw [this] at hs
+    cases hs; rfl
+  subst hk
+  have hlen : lvl.length = 4 := by
+    have h4 : (e2emGetD [] (aspectLevels resp.final)).length = 4 := by subst hresp; decide +kernel
+    rw [hlv] at h4
+    exact h4
+  refine ⟨resp, lvl, h, hlv, hlen, hc, final_state_levels_pass_spec resp _ _ _ _ lvl hc
+    (by subst hresp; decide +kernel) ?_⟩
+  intro cr hcr rg hrg
+  have hall : resp.final.crit.all (fun cr => match valuesRange resp.final.all cr with
+      | .ok rg => decide (rg.1 ≤ rg.2)
+      | .error _ => true) = true := by subst hresp; decide +kernel
+  have := List.all_eq_true.mp hall cr hcr
+  rw [hrg] at this
+  simpa using this
+
+/-- … satisfaction: subtractive series 1, 3/4, 1/2, 1/4 (down to above 1/8) — four levels from the final state -/
+example : ∃ resp lvl, Rdm.decide id e2emExSatisf e2eExSeeds = .ok resp ∧
+    satisfactionLevels resp.final = .ok lvl ∧ lvl.length = 4 ∧
+    coefLevels .decSub resp.final (1 / 4) 1 (1 / 8) = .ok lvl := by
+  obtain ⟨resp, h⟩ := e2e_ok_of_isOk (x := Rdm.decide id e2emExSatisf e2eExSeeds) (by decide +kernel)
+  obtain ⟨lvl, _, hlv, hcase⟩ := decideWith_satisfaction_generated_levels id _ _ _ resp "idealSubtractiveCoefficient"
+    (1 / 4) 1 (1 / 8) 11 "d" false h rfl
+  rcases hcase with ⟨hn, _⟩ | ⟨k, hs, _, hc, _, ranges, rs, _, _, _, hsr, hl, _, _, _, _, _⟩
+  · exact absurd hn (by decide)
+  have hk : k = .decSub := by
+    have : findSource satisfactionSources "idealSubtractiveCoefficient" = .ok (.coef .decSub) := by decide
+    rw [this] at hs
+    cases hs; rfl
+  subst hk
+  refine ⟨resp, lvl, h, hlv, ?_, hc⟩
+  have : coefSeries .decSub (1 / 4 : Rat) 1 (1 / 8) (coefFuel .decSub (1 / 4 : Rat) 1 (1 / 8)) 1
+      = .ok [1, 3 / 4, 1 / 2, 1 / 4] := by decide +kernel
+  rw [this] at hsr
+  cases hsr
+  rw [hl]; rfl
 
 /-- the constants and names this property depends on were re-read from the working tree on this run
     (none fell back to its pinned value because its declaration could not be located) -/
